@@ -406,3 +406,159 @@ Section Drive.
     apply (IH (e_store e) _ HTe Hok).
   Qed.
 End Drive.
+
+(* ======================= the whole simulation ======================= *)
+Section Sim.
+  Variable V : Type.
+  Variable vadd : V -> V -> V.
+  Variable T : Type.
+  Variable O : C09.numops T.
+  Variables dI dT : nat.
+  Hypothesis HdI : 1 <= dI.
+  Hypothesis HdT : 1 <= dT.
+  Variable maxit : Z.
+  Variable v0 : V.
+
+  Notation iti := (map Z.of_nat (seq 0 dI)).
+  Notation tsi := (map Z.of_nat (seq 0 dT)).
+  Notation sim := (simulate V vadd T O maxit).
+  Notation acc_of := (accepted vadd (T := T) v0).
+
+  Lemma simulate_ok a sched solves c st0 tr sp :
+    sim a sched iti tsi v0 solves = inl (c, st0, (tr, sp)) ->
+    WI V dI st0 v0 /\ WT V dT v0 st0 [v0] /\
+    (forall e, sp <> RaisedStore e) /\
+    trace_ok V vadd T dI dT v0 [v0] tr /\
+    C09.simulate T O a sched (map ev_of tr) = inl (c, (map clock_of tr, stop_of sp)).
+  Proof.
+    unfold simulate, C09.simulate. intros H.
+    destruct (C09.construct T O a sched) as [c'|e]; [|discriminate].
+    destruct (init_ok V vadd dI dT v0 HdI HdT) as [st [Ei [Ri Rt]]]. rewrite Ei in H.
+    rewrite !map_length, !seq_length in H.
+    assert (Hc : c' = c) by congruence. assert (Hst : st = st0) by congruence.
+    assert (H2 : drive V vadd T O maxit (Z.of_nat dI) (Z.of_nat dT) c' sched
+                       (C09.init_state T O c' sched) st solves = (tr, sp)) by congruence.
+    subst c' st0. clear H.
+    assert (HI : WI V dI st v0).
+    { destruct dI as [|d]; [lia|]. exists (repeat v0 d). exact Ri. }
+    assert (HT : WT V dT v0 st [v0]).
+    { unfold WT, pad. destruct dT as [|d]; [lia|]. cbn [repeat] in Rt.
+      replace (S d - 1) with d by lia. exact Rt. }
+    destruct (drive_ok V vadd T O dI dT HdI HdT maxit c sched v0 solves _ _ _ _ _ _ HI HT H2)
+      as [H1 [H3 H4]].
+    split; [exact HI|split; [exact HT|split; [exact H1|split; [exact H3|]]]].
+    rewrite H4. reflexivity.
+  Qed.
+
+  Lemma simulate_fails_only_in_ctor a sched solves f :
+    sim a sched iti tsi v0 solves = inr f ->
+    exists e, f = CtorErr e /\ C09.construct T O a sched = inr e.
+  Proof.
+    unfold simulate. intros H.
+    destruct (C09.construct T O a sched) as [c'|e].
+    - destruct (init_ok V vadd dI dT v0 HdI HdT) as [st [Ei _]]. rewrite Ei in H. discriminate.
+    - inversion H. exists e. split; reflexivity.
+  Qed.
+
+  (* the facts about one attempted step, in terms of the dictionaries *)
+  Lemma step_facts a sched solves c st0 tr sp pre e post :
+    sim a sched iti tsi v0 solves = inl (c, st0, (tr, sp)) ->
+    tr = pre ++ e :: post ->
+    (forall x, e_res e <> NErr x) /\ e_res e <> NOut /\
+    (forall i, slot_get (tss (e_store e)) i
+               = if i <? dT then Some (nth i (acc_of (pre ++ [e])) v0) else None) /\
+    (no_exc e = true -> slot_get (its (e_store e)) 0 = Some (hd v0 (acc_of (pre ++ [e])))).
+  Proof.
+    intros Hs Htr. destruct (simulate_ok _ _ _ _ _ _ _ Hs) as [_ [_ [_ [Hok _]]]].
+    subst tr. apply (trace_ok_app V vadd T dI dT v0) in Hok. cbn [trace_ok] in Hok.
+    destruct Hok as [[H1 [H2 [H3 H4]]] _].
+    unfold accepted. rewrite fold_left_app. cbn [fold_left].
+    split; [exact H1|split; [exact H2|split]].
+    - intros i. apply (WT_get V dI dT HdI HdT v0); [|exact H3].
+      apply accept_nonempty. apply accepts_nonempty. discriminate.
+    - intros Hn. apply (WI_get V dI dT HdI HdT). apply H4. exact Hn.
+  Qed.
+
+  Theorem after_convergence_thm a sched solves c st0 tr sp pre e post k :
+    sim a sched iti tsi v0 solves = inl (c, st0, (tr, sp)) ->
+    tr = pre ++ e :: post -> e_res e = NConv k -> (forall x, e_out e <> C09.OErr x) ->
+    let sol := fold_left vadd (e_used e) (hd v0 (acc_of pre)) in
+    slot_get (tss (e_store e)) 0 = Some sol /\
+    slot_get (its (e_store e)) 0 = Some sol /\
+    acc_of (pre ++ [e]) = sol :: acc_of pre.
+  Proof.
+    intros Hs Htr Hres Hout sol.
+    destruct (step_facts _ _ _ _ _ _ _ _ _ _ Hs Htr) as [_ [_ [Hts Hit]]].
+    assert (Hacc : acc_of (pre ++ [e]) = sol :: acc_of pre).
+    { subst sol. unfold accepted. rewrite fold_left_app. cbn [fold_left]. unfold accept1 at 1.
+      rewrite Hres.
+      pose proof (accepts_nonempty V vadd T pre [v0] ltac:(discriminate)) as Hne.
+      destruct (fold_left (accept1 vadd) pre [v0]) as [|p q] eqn:E; [congruence|].
+      destruct (e_out e) eqn:Eo; try reflexivity. exfalso. exact (Hout _ eq_refl). }
+    fold sol in Hacc. rewrite Hacc in Hts, Hit. split; [|split; [|exact Hacc]].
+    - rewrite (Hts 0). destruct dT; [lia|]. reflexivity.
+    - apply Hit. unfold no_exc. rewrite Hres. destruct (e_out e) eqn:Eo; try reflexivity.
+      exfalso. exact (Hout _ eq_refl).
+  Qed.
+
+  Theorem after_failure_thm a sched solves c st0 tr sp pre e post :
+    sim a sched iti tsi v0 solves = inl (c, st0, (tr, sp)) ->
+    tr = pre ++ e :: post -> e_res e = NFail -> (forall x, e_out e <> C09.OErr x) ->
+    let prev := hd v0 (acc_of pre) in
+    slot_get (its (e_store e)) 0 = Some prev /\
+    slot_get (tss (e_store e)) 0 = Some prev /\
+    acc_of (pre ++ [e]) = acc_of pre.
+  Proof.
+    intros Hs Htr Hres Hout prev.
+    destruct (step_facts _ _ _ _ _ _ _ _ _ _ Hs Htr) as [_ [_ [Hts Hit]]].
+    assert (Hacc : acc_of (pre ++ [e]) = acc_of pre).
+    { unfold accepted. rewrite fold_left_app. cbn [fold_left]. unfold accept1 at 1.
+      rewrite Hres. reflexivity. }
+    rewrite Hacc in Hts, Hit.
+    pose proof (accepts_nonempty V vadd T pre [v0] ltac:(discriminate)) as Hne.
+    fold (acc_of pre) in Hne.
+    split; [|split; [|exact Hacc]].
+    - apply Hit. unfold no_exc. rewrite Hres. destruct (e_out e) eqn:Eo; try reflexivity.
+      exfalso. exact (Hout _ eq_refl).
+    - rewrite (Hts 0). destruct dT; [lia|]. cbn [Nat.ltb Nat.leb]. unfold prev.
+      destruct (acc_of pre); [congruence|]. reflexivity.
+  Qed.
+
+  Theorem history_thm a sched solves c st0 tr sp :
+    sim a sched iti tsi v0 solves = inl (c, st0, (tr, sp)) ->
+    (forall e, sp <> RaisedStore e) /\
+    (forall e, In e tr -> (forall x, e_res e <> NErr x) /\ e_res e <> NOut) /\
+    (* at every attempted step, raising ones included ... *)
+    (forall pre e post, tr = pre ++ e :: post -> forall i,
+        slot_get (tss (e_store e)) i
+        = if i <? dT then Some (nth i (acc_of (pre ++ [e])) v0) else None) /\
+    (* ... and in the state the run ended with *)
+    (forall i, slot_get (tss (final_store st0 tr)) i
+               = if i <? dT then Some (nth i (acc_of tr) v0) else None).
+  Proof.
+    intros Hs. destruct (simulate_ok _ _ _ _ _ _ _ Hs) as [_ [HT0 [Hsp [Hok _]]]].
+    split; [exact Hsp|split; [|split]].
+    - intros e Hin. destruct (in_split _ _ Hin) as [pre [post Htr]].
+      destruct (step_facts _ _ _ _ _ _ _ _ _ _ Hs Htr) as [H1 [H2 _]]. split; assumption.
+    - intros pre e post Htr.
+      destruct (step_facts _ _ _ _ _ _ _ _ _ _ Hs Htr) as [_ [_ [H3 _]]]. exact H3.
+    - intros i. apply (WT_get V dI dT HdI HdT v0).
+      + apply accepts_nonempty. discriminate.
+      + apply (final_store_WT V vadd T dI dT v0); assumption.
+  Qed.
+End Sim.
+
+Lemma clock_is_C09 :
+  forall (V : Type) (vadd : V -> V -> V) (T : Type) (O : C09.numops T) (dI dT : nat),
+    1 <= dI -> 1 <= dT ->
+    forall (maxit : Z) (v0 : V) (a : C09.args T) (sched : list T)
+           (solves : list (list (V * bool * bool)))
+           (c : C09.cfg T) (st0 : store V) (tr : list (entry V T)) (sp : stop),
+    simulate V vadd T O maxit a sched (map Z.of_nat (seq 0 dI)) (map Z.of_nat (seq 0 dT))
+             v0 solves = inl (c, st0, (tr, sp)) ->
+    C09.simulate T O a sched (map ev_of tr) = inl (c, (map clock_of tr, stop_of sp)).
+Proof.
+  intros V vadd T O dI dT HdI HdT maxit v0 a sched solves c st0 tr sp H.
+  exact (proj2 (proj2 (proj2 (proj2
+           (simulate_ok V vadd T O dI dT HdI HdT maxit v0 a sched solves c st0 tr sp H))))).
+Qed.
